@@ -34,10 +34,20 @@ func NewCachedLoader(loader Loader, cache map[string]*Schema) *CachedLoader {
 type CachedLoader struct {
 	loader Loader
 	cache  map[string]*Schema
+
+	// resolveExtensions are the extensions a file reference may leave out; with them the cache can tell
+	// that two spellings of a reference ("lib/a", "./lib/a.json") name the same file.
+	resolveExtensions []string
 }
 
 func (l *CachedLoader) Load(uri, parentURI string) (*Schema, error) {
 	key := cacheKey(uri, parentURI)
+
+	if r, err := GetRefType(uri); err == nil && r == RefTypeFile {
+		if qualified, qerr := QualifiedFileName(uri, parentURI, l.resolveExtensions); qerr == nil {
+			key = qualified
+		}
+	}
 
 	if schema, ok := l.cache[key]; ok {
 		return schema, nil
@@ -113,7 +123,10 @@ func (l *FileLoader) parseFile(fileName string) (*Schema, error) {
 }
 
 func NewDefaultCacheLoader(resolveExtensions, yamlExtensions []string) *CachedLoader {
-	return NewCachedLoader(NewDefaultMultiLoader(resolveExtensions, yamlExtensions), map[string]*Schema{})
+	loader := NewCachedLoader(NewDefaultMultiLoader(resolveExtensions, yamlExtensions), map[string]*Schema{})
+	loader.resolveExtensions = resolveExtensions
+
+	return loader
 }
 
 func NewDefaultMultiLoader(resolveExtensions, yamlExtensions []string) MultiLoader {
